@@ -133,7 +133,7 @@ def chunkW (w : Nat) : Nat → List Nat → List (List Nat)
 
 /-- `convolve_modn_ntt` through the word-level model (root tables, `from_mint`, `ntt_inplace`, `_crt`)
 up to this size; beyond it the driver answers with the specification model -/
-def NTT_MODEL_MAX : Nat := 1024
+def NTT_MODEL_MAX : Nat := 4096
 
 def handlePolyFft : Handler
   | "pf_convolve" :: n :: size :: offset :: reslen :: p :: q :: rest => do
@@ -145,7 +145,7 @@ def handlePolyFft : Handler
     let n ← parseNat n; let size ← parseNat size; let offset ← parseNat offset
     let reslen ← parseNat reslen; let logk ← parseNat logk
     let p ← parsePoly n p; let q ← parsePoly n q
-    if size ≤ NTT_MODEL_MAX ∧ logk ≤ 13 ∧ 0 < size then
+    if size ≤ NTT_MODEL_MAX ∧ logk ≤ 15 ∧ 0 < size then
       -- mechanism model on the Montgomery residues held in the MInts
       let (_, r, ri) ← mont n
       match Ymq.Crt.new n logk with
@@ -220,6 +220,42 @@ def handlePolyFft : Handler
     let n ← parseNat n; let ringsize ← parseNat ringsize; let p ← parsePoly n p
     some (showOptList (Ymq.PolyMul.invModXn (Ymq.PolyMul.Ctx.new ringsize) (Ymq.PolyMul.natOps n)
       Ymq.PolyMul.FUEL p.toList (6 * p.size)))
+  -- `pfm_*` twins: the same models run with the Montgomery operations `montOps` on the raw integers held by
+  -- the `MInt`s (what the theorems `*_mont`, `mont_ops_hom`, `fft_*_refines` are about)
+  | ["pfm_mul_karatsuba", n, p, q] => do
+    let n ← parseNat n; let p ← parseNatList p; let q ← parseNatList q; let (k, _, ri) ← mont n
+    some (showOptList (Ymq.PolyMul.mulKaratsuba (Ymq.PolyMul.montOps n k ri) p q))
+  | ["pfm_mul_fft", n, ringsize, p, q] => do
+    let n ← parseNat n; let ringsize ← parseNat ringsize; let p ← parseNatList p; let q ← parseNatList q
+    let (k, _, ri) ← mont n
+    some (showOptList (Ymq.PolyMul.mulFft (Ymq.PolyMul.Ctx.new ringsize) (Ymq.PolyMul.montOps n k ri) p q))
+  | ["pfm_longmul", n, ringsize, p, q] => do
+    let n ← parseNat n; let ringsize ← parseNat ringsize; let p ← parseNatList p; let q ← parseNatList q
+    let (k, _, ri) ← mont n
+    some (showOptList (Ymq.PolyMul.longmul (Ymq.PolyMul.Ctx.new ringsize) (Ymq.PolyMul.montOps n k ri)
+      (p.length + q.length) (6 * max p.length q.length + 6) p q))
+  | ["pfm_middlemul", n, ringsize, p, q] => do
+    let n ← parseNat n; let ringsize ← parseNat ringsize; let p ← parseNatList p; let q ← parseNatList q
+    let (k, _, ri) ← mont n
+    some (showOptList (Ymq.PolyMul.middlemulPub (Ymq.PolyMul.Ctx.new ringsize) (Ymq.PolyMul.montOps n k ri) p q))
+  | ["pfm_div_mod_xn", n, ringsize, p, q] => do
+    let n ← parseNat n; let ringsize ← parseNat ringsize; let p ← parseNatList p; let q ← parseNatList q
+    let (k, _, ri) ← mont n
+    some (showOptList (Ymq.PolyMul.divModXnPub (Ymq.PolyMul.Ctx.new ringsize) (Ymq.PolyMul.montOps n k ri) p q))
+  | ["pfm_inv_mod_xn", n, ringsize, p] => do
+    let n ← parseNat n; let ringsize ← parseNat ringsize; let p ← parseNatList p; let (k, _, ri) ← mont n
+    some (showOptList (Ymq.PolyMul.invModXn (Ymq.PolyMul.Ctx.new ringsize) (Ymq.PolyMul.montOps n k ri)
+      Ymq.PolyMul.FUEL p (6 * p.length)))
+  | ["pfm_from_roots", n, ringsize, roots] => do
+    let n ← parseNat n; let ringsize ← parseNat ringsize; let roots ← parseNatList roots; let (k, _, ri) ← mont n
+    some (showOptList (Ymq.PolyMul.fromRoots (Ymq.PolyMul.Ctx.new ringsize) (Ymq.PolyMul.montOps n k ri) roots))
+  | ["pfm_roots_eval", n, a, b] => do
+    let n ← parseNat n; let a ← parseNatList a; let b ← parseNatList b; let (k, _, ri) ← mont n
+    some (showOptList (Ymq.PolyMul.rootsEval (Ymq.PolyMul.montOps n k ri) a b))
+  | ["pfm_multi_eval", n, ringsize, p, pts] => do
+    let n ← parseNat n; let ringsize ← parseNat ringsize; let p ← parseNatList p; let pts ← parseNatList pts
+    let (k, _, ri) ← mont n
+    some (showOptList (Ymq.PolyMul.multiEval (Ymq.PolyMul.Ctx.new ringsize) (Ymq.PolyMul.montOps n k ri) p pts))
   | ["mzp_new", n, logk] => do
     let n ← parseNat n; let logk ← parseNat logk
     some (match Ymq.Crt.new n logk with
